@@ -33,10 +33,10 @@ Check (C16_stop_terminates_nonvacuous :
   is_stw (pc (th (run cfg_fixed live_sched (init_all live_progs)) 0)) = true /\
   is_stw (pc (th (run_stream cfg_fixed rr3 60 (run cfg_fixed live_sched (init_all live_progs))) 0)) = false).
 Check (C16_stop_delayed_by_late_registration :
-  let w := run cfg_fixed late_sched (init late_progs) in
+  let w := run cfg_pre_spawn_fix late_sched (init late_progs) in
   pc (th w 2) = Stw (SWait 1 1) /\ reg (th w 1) = true /\ paused (th w 1) = false /\
-  wstep cfg_fixed 2 w = None /\
-  wstep cfg_fixed 2 (run cfg_fixed (repeat 1 20) w) = None /\ prog (th (run cfg_fixed (repeat 1 20) w) 1) <> []).
+  wstep cfg_pre_spawn_fix 2 w = None /\
+  wstep cfg_pre_spawn_fix 2 (run cfg_pre_spawn_fix (repeat 1 20) w) = None /\ prog (th (run cfg_pre_spawn_fix (repeat 1 20) w) 1) <> []).
 Check (C16_join_once : forall cfg progs sched,
   let w := run cfg sched (init progs) in
   NoDup (map snd (deliv (sh w))) /\
@@ -54,8 +54,8 @@ Check (C16_every_region_published : regions_ok = true).
 (* definitions the statements rest on *)
 Check (eq_refl : deadlocked = fun cfg w =>
   (forall t, wstep cfg t w = None) /\ (exists i, live (th w i) = true /\ script_blocked w i = false)).
-Check (eq_refl : cfg_fixed = {| keep_guard := true; jit_box_safepoint := true |}).
-Check (eq_refl : cfg_old = {| keep_guard := false; jit_box_safepoint := false |}).
+Check (eq_refl : cfg_fixed = {| keep_guard := true; jit_box_safepoint := true; spawn_locked := true |}).
+Check (eq_refl : cfg_old = {| keep_guard := false; jit_box_safepoint := false; spawn_locked := false |}).
 Check (eq_refl : run = fun cfg sched w => Conc.run world (wstep cfg) sched w).
 Check (eq_refl : live = fun x => negb (is_done (pc x)) && negb (is_notstarted (pc x))).
 Check (eq_refl : f18_progs = [[AUpdate]; [AUpdate]]).
